@@ -22,6 +22,13 @@ type fsig struct {
 	outIdx   []int // indices (among the Go parameters incl. a named receiver) of the written slice parameters
 	optional bool
 	nRecv    int // 1 if the Go function has a named receiver
+	stateful  bool     // value = (state components…, written parameters…, results…)
+	stateKeys []string // canonical paths of the state components (receiver fields, external objects), in order
+	nOutPar   int
+	resTys    []types.Type
+	pathLean  map[string]string // path binder -> Lean type when the Go type has none (external objects)
+	qual      string            // fully qualified Lean name
+	nImplicit int
 }
 
 // importCallees: calls of already emitted functions / methods of this unit bring their implicit binders into the caller.
@@ -42,6 +49,9 @@ func (t *tr) importCallees(f *fctx, stmts []ast.Stmt) (extraPaths []string, extr
 					continue
 				}
 				if src, isPath := sg.pathSrc[b.name]; isPath {
+					if _, isExt := sg.pathLean[b.name]; isExt {
+						continue // external objects are declared by the (inherited) -extern flags of the caller itself
+					}
 					if _, dup := extraTy[src]; !dup {
 						extraPaths = append(extraPaths, src)
 						extraTy[src] = sg.pathTy[b.name]
@@ -74,9 +84,116 @@ func (t *tr) calleeSig(c *ast.CallExpr) *fsig {
 					}
 				}
 			}
+		} else if id, ok := x.X.(*ast.Ident); ok {
+			// a function of an earlier unit of this run (another package)
+			if pn, ok := t.objOf(id).(*types.PkgName); ok {
+				if u := t.unitOfPath(pn.Imported().Path()); u != nil && u != t.u {
+					if sg := u.sigs[x.Sel.Name]; sg != nil && !sg.proc && len(sg.pathSrc) == 0 {
+						return sg
+					}
+				}
+			}
 		}
 	}
 	return nil
+}
+
+// autoHelpers: same-package functions / methods that the body calls and that are neither translated yet nor named by a flag
+// are translated first, as definitions of their own, with the flags of the caller (a refactoring that extracts a helper then
+// changes the generated definitions — the tie theorem decides — instead of making the translation fail).
+func (t *tr) autoHelpers(fd *ast.FuncDecl) {
+	u := t.u
+	caller := fd.Name.Name
+	var todo []string
+	seen := map[string]bool{}
+	ast.Inspect(fd.Body, func(nd ast.Node) bool {
+		c, ok := nd.(*ast.CallExpr)
+		if !ok {
+			return true
+		}
+		name := ""
+		switch x := c.Fun.(type) {
+		case *ast.Ident:
+			if o, isFn := t.u.info.Uses[x].(*types.Func); isFn && o.Pkg() == u.pkg {
+				name = x.Name
+			}
+		case *ast.SelectorExpr:
+			if sel, ok := u.info.Selections[x]; ok && sel.Kind() == types.MethodVal {
+				if fn, ok := sel.Obj().(*types.Func); ok && fn.Pkg() == u.pkg {
+					if d, ok := u.decls[x.Sel.Name]; ok && u.info.Defs[d.Name] == sel.Obj() {
+						name = x.Sel.Name
+					}
+				}
+			}
+		}
+		if name == "" || seen[name] || name == caller {
+			return true
+		}
+		seen[name] = true
+		if _, have := u.decls[name]; !have {
+			return true
+		}
+		if u.sigs[name] != nil || u.emitted[name] || u.inProgress[name] || u.failedHelper[name] {
+			return true
+		}
+		if _, isProc := u.procs[name]; isProc {
+			return true
+		}
+		for _, k := range t.calleeKeys(c) { // abstracted by a flag: not translated
+			for _, p := range t.f.patterns {
+				if p == k {
+					return true
+				}
+			}
+		}
+		todo = append(todo, name)
+		return true
+	})
+	for _, name := range todo {
+		hd := u.decls[name]
+		// the helper inherits the caller's flags
+		inherit := func(m map[string][]opq) {
+			if _, own := m[name]; !own {
+				m[name] = m[caller]
+			}
+		}
+		inherit(u.opaque)
+		inherit(u.block)
+		inherit(u.apply)
+		inherit(u.fill)
+		inherit(u.ctor)
+		inherit(u.inout)
+		inherit(u.mutate)
+		if _, own := u.abstract[name]; !own {
+			u.abstract[name] = u.abstract[caller]
+		}
+		if _, own := u.extern[name]; !own {
+			u.extern[name] = u.extern[caller]
+			for k, v := range u.externKind {
+				if strings.HasPrefix(k, caller+":") {
+					u.externKind[name+":"+strings.TrimPrefix(k, caller+":")] = v
+				}
+			}
+		}
+		if u.stateful[caller] && hd.Recv != nil {
+			u.stateful[name] = true
+		}
+		saved := t.f
+		nerr, npend := len(t.errs), len(t.pending)
+		u.inProgress[name] = true
+		out := t.fn(hd)
+		delete(u.inProgress, name)
+		t.f = saved
+		if len(t.errs) > nerr {
+			// not translatable (e.g. it only feeds a field without a value): leave it alone; a call site that needs its value
+			// fails there
+			t.errs, t.pending = t.errs[:nerr], t.pending[:npend]
+			u.failedHelper[name] = true
+			continue
+		}
+		t.pending = append(t.pending, "/- helper of "+caller+", translated on demand -/\n"+out+"\n")
+		u.emitted[name] = true
+	}
 }
 
 func supported(k kind) bool {
@@ -119,7 +236,7 @@ func (t *tr) collectPaths(stmts []ast.Stmt, outer map[types.Object]bool) (paths 
 			if !supported(k) || r == nil || !outer[r] {
 				return true
 			}
-			src := t.src(se)
+			src := t.pathKey(se)
 			if _, dup := tys[src]; !dup {
 				paths = append(paths, src)
 				tys[src] = t.typeOf(se)
@@ -137,20 +254,20 @@ func (t *tr) opaqueBinders(f *fctx, stmts []ast.Stmt, ops []opq, n ast.Node) {
 		var sig *types.Signature
 		for _, s := range stmts {
 			ast.Inspect(s, func(nd ast.Node) bool {
-				if c, ok := nd.(*ast.CallExpr); ok && sig == nil && t.src(c.Fun) == o.callee {
+				if c, ok := nd.(*ast.CallExpr); ok && sig == nil && t.ck(c) == o.callee {
 					sig, _ = t.typeOf(c.Fun).(*types.Signature)
 				}
 				return true
 			})
 		}
 		if sig == nil {
-			t.fail(n, "opaque callee %s is not called here", o.callee)
+			t.unusedFlag(n, o.callee)
 			continue
 		}
 		var parts []string
 		for _, s := range stmts {
 			ast.Inspect(s, func(nd ast.Node) bool {
-				if c, ok := nd.(*ast.CallExpr); ok && len(parts) == 0 && t.src(c.Fun) == o.callee {
+				if c, ok := nd.(*ast.CallExpr); ok && len(parts) == 0 && t.ck(c) == o.callee {
 					if sel, ok := c.Fun.(*ast.SelectorExpr); ok {
 						if kr, _ := t.kindOf(sel.X); kr == kAbs {
 							parts = append(parts, t.leanType(t.typeOf(sel.X)))
@@ -172,7 +289,7 @@ func (t *tr) opaqueBinders(f *fctx, stmts []ast.Stmt, ops []opq, n ast.Node) {
 			nargs := -1
 			for _, s := range stmts {
 				ast.Inspect(s, func(nd ast.Node) bool {
-					if c, ok := nd.(*ast.CallExpr); ok && t.src(c.Fun) == o.callee {
+					if c, ok := nd.(*ast.CallExpr); ok && t.ck(c) == o.callee {
 						if c.Ellipsis.IsValid() || (nargs >= 0 && nargs != len(c.Args)) {
 							nargs = -2
 						} else if nargs == -1 {
@@ -209,21 +326,21 @@ func (t *tr) blockBinders(f *fctx, stmts []ast.Stmt, fn string, n ast.Node) {
 		found := false
 		for _, s := range stmts {
 			ast.Inspect(s, func(nd ast.Node) bool {
-				if c, ok := nd.(*ast.CallExpr); ok && t.src(c.Fun) == o.callee {
+				if c, ok := nd.(*ast.CallExpr); ok && t.ck(c) == o.callee {
 					found = true
 				}
 				return true
 			})
 		}
 		if !found {
-			t.fail(n, "block callee %s is not called here", o.callee)
+			t.unusedFlag(n, o.callee)
 			continue
 		}
 		f.blockops[o.callee] = o
 		bty := "Bytes → Bytes"
 		for _, s := range stmts {
 			ast.Inspect(s, func(nd ast.Node) bool {
-				if c, ok := nd.(*ast.CallExpr); ok && t.src(c.Fun) == o.callee {
+				if c, ok := nd.(*ast.CallExpr); ok && t.ck(c) == o.callee {
 					if sel, ok := c.Fun.(*ast.SelectorExpr); ok {
 						if kr, _ := t.kindOf(sel.X); kr == kBytes {
 							bty = "Bytes → Bytes → Bytes" // keyed by the representation of the cipher object (its key)
@@ -242,7 +359,7 @@ func (t *tr) blockBinders(f *fctx, stmts []ast.Stmt, fn string, n ast.Node) {
 		var recvTy types.Type
 		for _, s := range stmts {
 			ast.Inspect(s, func(nd ast.Node) bool {
-				if c, ok := nd.(*ast.CallExpr); ok && sig == nil && t.src(c.Fun) == o.callee {
+				if c, ok := nd.(*ast.CallExpr); ok && sig == nil && t.ck(c) == o.callee {
 					sig, _ = t.typeOf(c.Fun).(*types.Signature)
 					if sel, ok := c.Fun.(*ast.SelectorExpr); ok {
 						recvTy = t.typeOf(sel.X)
@@ -252,7 +369,7 @@ func (t *tr) blockBinders(f *fctx, stmts []ast.Stmt, fn string, n ast.Node) {
 			})
 		}
 		if sig == nil || recvTy == nil {
-			t.fail(n, "-mutate callee %s is not called here", o.callee)
+			t.unusedFlag(n, o.callee)
 			continue
 		}
 		if kr, _ := classify(recvTy); kr != kAbs || sig.Results().Len() != 0 {
@@ -276,7 +393,7 @@ func (t *tr) blockBinders(f *fctx, stmts []ast.Stmt, fn string, n ast.Node) {
 		var sig *types.Signature
 		for _, s := range stmts {
 			ast.Inspect(s, func(nd ast.Node) bool {
-				if c, ok := nd.(*ast.CallExpr); ok && sig == nil && t.src(c.Fun) == callee {
+				if c, ok := nd.(*ast.CallExpr); ok && sig == nil && t.ck(c) == callee {
 					sig, _ = t.typeOf(c.Fun).(*types.Signature)
 				}
 				return true
@@ -287,14 +404,14 @@ func (t *tr) blockBinders(f *fctx, stmts []ast.Stmt, fn string, n ast.Node) {
 	for _, o := range t.u.apply[fn] {
 		sig := calledSig(o.callee)
 		if sig == nil {
-			t.fail(n, "-apply callee %s is not called here", o.callee)
+			t.unusedFlag(n, o.callee)
 			continue
 		}
 		f.applyops[o.callee] = o
 		ty := "Bytes → Bytes"
 		for _, s := range stmts {
 			ast.Inspect(s, func(nd ast.Node) bool {
-				if c, ok := nd.(*ast.CallExpr); ok && t.src(c.Fun) == o.callee && ty == "Bytes → Bytes" {
+				if c, ok := nd.(*ast.CallExpr); ok && t.ck(c) == o.callee && ty == "Bytes → Bytes" {
 					if sel, ok := c.Fun.(*ast.SelectorExpr); ok {
 						if kr, _ := t.kindOf(sel.X); kr != kBad && kr != kErr {
 							ty = leanTypeOfKind(kr) + " → " + ty // keyed by the receiver's representation
@@ -310,7 +427,7 @@ func (t *tr) blockBinders(f *fctx, stmts []ast.Stmt, fn string, n ast.Node) {
 	}
 	for _, o := range t.u.fill[fn] {
 		if calledSig(o.callee) == nil {
-			t.fail(n, "-fill callee %s is not called here", o.callee)
+			t.unusedFlag(n, o.callee)
 			continue
 		}
 		// the source of fresh bytes is a pure function of the length here, which is only faithful for ONE draw:
@@ -331,7 +448,7 @@ func (t *tr) blockBinders(f *fctx, stmts []ast.Stmt, fn string, n ast.Node) {
 						return false
 					}
 				case *ast.CallExpr:
-					if t.src(y.Fun) == o.callee {
+					if t.ck(y) == o.callee {
 						ncalls++
 						if loop {
 							inLoop = true
@@ -355,7 +472,7 @@ func (t *tr) blockBinders(f *fctx, stmts []ast.Stmt, fn string, n ast.Node) {
 	for _, o := range t.u.inout[fn] {
 		sig := calledSig(o.callee)
 		if sig == nil {
-			t.fail(n, "-inout callee %s is not called here", o.callee)
+			t.unusedFlag(n, o.callee)
 			continue
 		}
 		f.inouts[o.callee] = o
@@ -374,7 +491,7 @@ func (t *tr) blockBinders(f *fctx, stmts []ast.Stmt, fn string, n ast.Node) {
 	}
 	for _, o := range t.u.ctor[fn] {
 		if calledSig(o.callee) == nil {
-			t.fail(n, "-ctor callee %s is not called here", o.callee)
+			t.unusedFlag(n, o.callee)
 			continue
 		}
 		idx := 0
@@ -383,8 +500,27 @@ func (t *tr) blockBinders(f *fctx, stmts []ast.Stmt, fn string, n ast.Node) {
 	}
 }
 
+// unusedFlag: a flag naming a callee that this function does not call is ignored (the flags of a function are inherited by the
+// same-package helpers it calls, which are translated on demand; nothing is abstracted that does not occur)
+func (t *tr) unusedFlag(n ast.Node, callee string) {}
+
 func (t *tr) finish(f *fctx, resTy, body string) string {
-	return strings.Join(f.aux, "\n") + "\n" + fmt.Sprintf("def %s %s : %s :=\n%s\n", f.name, f.binderDecl(), resTy, body)
+	// for readers (and for the one-off migration of proofs written against the old, Go-named definitions):
+	// canonical name = Go local (source line)
+	var cm strings.Builder
+	cm.WriteString("/- names of " + f.name + ":")
+	for i, n := range f.names {
+		if i%4 == 0 {
+			cm.WriteString("\n    ")
+		}
+		short := strings.TrimPrefix(n.canon, f.name+".")
+		cm.WriteString(fmt.Sprintf("%s = %s (l.%d); ", short, n.goName, n.line))
+		if t.nameMap != nil && strings.Contains(n.canon, ".") {
+			t.nameMap = append(t.nameMap, [2]string{t.u.sub + "." + n.legacy, t.u.sub + "." + n.canon})
+		}
+	}
+	cm.WriteString("\n-/\n")
+	return cm.String() + strings.Join(f.aux, "\n") + "\n" + fmt.Sprintf("def %s %s : %s :=\n%s\n", f.name, f.binderDecl(), resTy, body)
 }
 
 func (t *tr) fn(fd *ast.FuncDecl) string {
@@ -393,6 +529,33 @@ func (t *tr) fn(fd *ast.FuncDecl) string {
 	t.f = f
 	f.stateful = u.stateful[fd.Name.Name]
 	f.goSig, _ = u.info.Defs[fd.Name].Type().(*types.Signature)
+	f.patterns = u.patternsOf(fd.Name.Name)
+	// canonical roots: the receiver is r, the i-th parameter a<i> (positions count unnamed parameters too)
+	if fd.Recv != nil {
+		for _, fl := range fd.Recv.List {
+			for _, n := range fl.Names {
+				if n.Name != "_" {
+					f.rootCanon[u.info.Defs[n]] = "r"
+					f.goParams[n.Name] = "r"
+				}
+			}
+		}
+	}
+	{
+		i := 0
+		for _, fl := range fd.Type.Params.List {
+			if len(fl.Names) == 0 {
+				i++
+			}
+			for _, n := range fl.Names {
+				if n.Name != "_" {
+					f.rootCanon[u.info.Defs[n]] = fmt.Sprintf("a%d", i)
+					f.goParams[n.Name] = fmt.Sprintf("a%d", i)
+				}
+				i++
+			}
+		}
+	}
 	for _, an := range u.absNames() {
 		f.binders = append(f.binders, binder{an, "Type"})
 	}
@@ -401,6 +564,9 @@ func (t *tr) fn(fd *ast.FuncDecl) string {
 	if f.stateful {
 		seenPath := map[string]bool{}
 		for _, e := range u.extern[fd.Name.Name] {
+			goPath := e.path
+			e.path = t.canonPathFlag(e.path)
+			f.legacyOf[pathName(e.path)] = pathName(goPath)
 			f.externs = append(f.externs, e)
 			f.externRead[e.callee] = u.externKind[fd.Name.Name+":"+e.callee] == "read"
 			sty := "S_" + pathName(e.path)
@@ -409,7 +575,7 @@ func (t *tr) fn(fd *ast.FuncDecl) string {
 				f.binders = append(f.binders, binder{sty, "Type"})
 				var node ast.Expr
 				ast.Inspect(fd.Body, func(nd ast.Node) bool {
-					if se, ok := nd.(*ast.SelectorExpr); ok && node == nil && t.src(se) == e.path {
+					if se, ok := nd.(*ast.SelectorExpr); ok && node == nil && t.isFieldPath(se) && t.pathKey(se) == e.path {
 						node = se
 					}
 					return true
@@ -419,8 +585,8 @@ func (t *tr) fn(fd *ast.FuncDecl) string {
 					// a global object (the random source): not a field of anything here
 					v = t.pathVarNamed(e.path, fd.Pos(), types.Typ[types.Invalid])
 				} else if node == nil {
-					t.fail(fd, "external object %s does not occur in %s", e.path, fd.Name.Name)
-					continue
+					// not mentioned here (a helper called from here may use it): still a parameter and a state component
+					v = t.pathVarNamed(e.path, fd.Pos(), types.Typ[types.Invalid])
 				} else {
 					v = t.pathVarNamed(e.path, node.Pos(), t.typeOf(node))
 				}
@@ -438,13 +604,12 @@ func (t *tr) fn(fd *ast.FuncDecl) string {
 				// callee() T: the object hands out one value
 				var rt types.Type
 				ast.Inspect(fd.Body, func(nd ast.Node) bool {
-					if c, ok := nd.(*ast.CallExpr); ok && rt == nil && t.src(c.Fun) == e.callee {
+					if c, ok := nd.(*ast.CallExpr); ok && rt == nil && t.ck(c) == e.callee {
 						rt = t.typeOf(c)
 					}
 					return true
 				})
 				if rt == nil {
-					t.fail(fd, "-extern callee %s is not called here", e.callee)
 					continue
 				}
 				ty = sty + " → " + t.leanType(rt) + " × " + sty
@@ -457,15 +622,16 @@ func (t *tr) fn(fd *ast.FuncDecl) string {
 	} else if len(u.extern[fd.Name.Name]) > 0 {
 		t.fail(fd, "-extern needs -stateful")
 	}
-	if hasWhile(fd.Body.List) {
+	if hasWhile(t, fd.Body.List) {
 		f.binders = append(f.binders, binder{"fuel", "Nat"})
 	}
 	t.opaqueBinders(f, fd.Body.List, u.opaque[fd.Name.Name], fd)
 	t.blockBinders(f, fd.Body.List, fd.Name.Name, fd)
 	nImplicitHead := len(f.binders)
+	t.autoHelpers(fd)
 	extraPaths, extraTy := t.importCallees(f, fd.Body.List)
 	nImplicitHead = len(f.binders)
-	sg := &fsig{pathSrc: map[string]string{}, pathTy: map[string]types.Type{}}
+	sg := &fsig{pathSrc: map[string]string{}, pathTy: map[string]types.Type{}, pathLean: map[string]string{}}
 	var fields []*ast.Field
 	if fd.Recv != nil {
 		fields = append(fields, fd.Recv.List...)
@@ -490,7 +656,7 @@ func (t *tr) fn(fd *ast.FuncDecl) string {
 		}
 		rootName, _, _ := strings.Cut(p, ".")
 		for o := range outer {
-			if o != nil && o.Name() == rootName {
+			if o != nil && f.rootCanon[o] == rootName {
 				paths = append(paths, p)
 				ptys[p] = extraTy[p]
 				proots[p] = o
@@ -506,8 +672,10 @@ func (t *tr) fn(fd *ast.FuncDecl) string {
 		obj := u.info.Defs[n]
 		k, _ := classify(obj.Type())
 		if supported(k) {
-			f.binders = append(f.binders, binder{leanName(n.Name), t.leanType(obj.Type())})
-			f.env[obj] = leanName(n.Name)
+			f.binders = append(f.binders, binder{f.rootCanon[obj], t.leanType(obj.Type())})
+			f.env[obj] = f.rootCanon[obj]
+			t.rank(obj)
+			f.names = append(f.names, nameRec{f.rootCanon[obj], n.Name, leanName(n.Name), t.fset.Position(n.Pos()).Line})
 			if _, isSlice := obj.Type().Underlying().(*types.Slice); isSlice && k == kBytes {
 				sliceParams = append(sliceParams, n)
 			}
@@ -517,11 +685,13 @@ func (t *tr) fn(fd *ast.FuncDecl) string {
 			if proots[p] == obj {
 				pn := pathName(p)
 				f.binders = append(f.binders, binder{pn, t.leanType(ptys[p])})
+				var pv *types.Var
 				if nd, ok := pnodes[p]; ok {
-					f.env[t.pathVar(nd)] = pn
+					pv = t.pathVar(nd)
 				} else {
-					f.env[t.pathVarNamed(p, fd.Pos(), ptys[p])] = pn
+					pv = t.pathVarNamed(p, fd.Pos(), ptys[p])
 				}
+				f.env[pv] = pn
 				sg.pathSrc[pn] = p
 				sg.pathTy[pn] = ptys[p]
 				plain = false
@@ -529,8 +699,17 @@ func (t *tr) fn(fd *ast.FuncDecl) string {
 		}
 	}
 	for _, v := range externVars {
+		if f.hasBinder(v.Name()) {
+			continue
+		}
 		f.binders = append(f.binders, binder{v.Name(), f.typeOverride[v]})
 		f.env[v] = v.Name()
+		for key, pv := range f.pvars {
+			if pv == v {
+				sg.pathSrc[v.Name()] = key
+				sg.pathLean[v.Name()] = f.typeOverride[v]
+			}
+		}
 		plain = false
 	}
 	t.scanClosures(fd.Body.List)
@@ -704,9 +883,13 @@ func (t *tr) fn(fd *ast.FuncDecl) string {
 	}
 	f.resTy = resTy
 	sg.binders = append([]binder{}, f.binders...)
+	sg.qual = t.ns + "." + u.sub + "." + leanName(fd.Name.Name)
 	for i, b := range sg.binders {
 		_, isPath := sg.pathSrc[b.name]
 		sg.implicit = append(sg.implicit, i < nImplicitHead || isPath)
+		if i < nImplicitHead || isPath {
+			sg.nImplicit++
+		}
 	}
 	sg.proc = f.outs != nil
 	body := t.block(fd.Body.List, 1, k)
@@ -720,7 +903,7 @@ func (t *tr) fn(fd *ast.FuncDecl) string {
 			if src, ok := isPath[o]; ok {
 				root, _, _ := strings.Cut(src, ".")
 				for po := range outer {
-					if po != nil && po.Name() == root {
+					if po != nil && f.rootCanon[po] == root {
 						t.fail(fd, "%s writes %s: translate it with -stateful", fd.Name.Name, src)
 					}
 				}
@@ -731,15 +914,34 @@ func (t *tr) fn(fd *ast.FuncDecl) string {
 		u.emitted[fd.Name.Name] = true
 	}
 	if f.stateful {
-		sg.proc = true // not callable from other translated functions (yet)
+		sg.proc, sg.stateful = true, true
 		sg.outIdx = nil
+		for _, o := range f.stateObjs {
+			for key, pv := range f.pvars {
+				if types.Object(pv) == o {
+					sg.stateKeys = append(sg.stateKeys, key)
+				}
+			}
+		}
+		for _, o := range f.outParams {
+			for i, n := range params {
+				if u.info.Defs[n] == o {
+					sg.outIdx = append(sg.outIdx, i)
+				}
+			}
+		}
+		sg.nOutPar = len(f.outParams)
+		for i := 0; i < f.goSig.Results().Len(); i++ {
+			sg.resTys = append(sg.resTys, f.goSig.Results().At(i).Type())
+		}
 	}
 	if fd.Recv != nil && len(fd.Recv.List) > 0 && len(fd.Recv.List[0].Names) > 0 && fd.Recv.List[0].Names[0].Name != "_" {
 		sg.nRecv = 1
 	}
 	if _, plainProc := u.procs[fd.Name.Name]; !plainProc {
+		nerr0 := len(t.errs)
 		defer func() {
-			if _, plainProc := u.procs[fd.Name.Name]; !plainProc {
+			if _, plainProc := u.procs[fd.Name.Name]; !plainProc && !(u.inProgress[fd.Name.Name] && len(t.errs) > nerr0) {
 				u.sigs[fd.Name.Name] = sg
 			}
 		}()
@@ -758,7 +960,7 @@ func (t *tr) region(fd *ast.FuncDecl, r regionSpec) string {
 	for _, an := range u.absNames() {
 		f.binders = append(f.binders, binder{an, "Type"})
 	}
-	if hasWhile(stmts) {
+	if hasWhile(t, stmts) {
 		f.binders = append(f.binders, binder{"fuel", "Nat"})
 	}
 	t.opaqueBinders(f, stmts, u.opaque[r.name], fd)
@@ -783,13 +985,21 @@ func (t *tr) region(fd *ast.FuncDecl, r regionSpec) string {
 			return true
 		})
 	}
+	f.patterns = u.patternsOf(r.name)
+	for i, o := range free {
+		// the free variables of a region are its parameters a0, a1, … in order of first occurrence
+		f.rootCanon[o] = fmt.Sprintf("a%d", i)
+		f.goParams[o.Name()] = f.rootCanon[o]
+	}
 	paths, ptys, proots, pnodes := t.collectPaths(stmts, seen)
 	for _, o := range free {
 		k, _ := classify(o.Type())
 		if supported(k) {
-			bn := leanName(o.Name())
+			bn := f.rootCanon[o]
 			f.binders = append(f.binders, binder{bn, t.leanType(o.Type())})
 			f.env[o] = bn
+			t.rank(o)
+			f.names = append(f.names, nameRec{bn, o.Name(), leanName(o.Name()), t.fset.Position(o.Pos()).Line})
 			continue
 		}
 		for _, p := range paths {
